@@ -381,6 +381,20 @@ def Sys.step (s : Sys) : SOp → Sys × List Ev
 
 def Sys.next (s : Sys) (op : SOp) : Sys := (s.step op).1
 
+/-! ### shared / swiss variants: one exclusive resource per thread -/
+
+/-- `destruct_all()` called on its own (first pass of the shared `release`) -/
+def Arena.destructAllSt (s : Arena) : Arena × List Ev :=
+  ({ s with dtArrs := [], dtors := [] }, destructAll s.dtArrs)
+
+/-- `SharedMonotonicBufferResource::release()` (and `SwissMemoryResource::release()`, which only
+clears its arena pointer first) over the per-thread resources in `for_each` order: first pass
+`destruct_all()` on every one, second pass `release()` on every one.  Called quiescently (no thread
+is allocating), so this is sequential. -/
+def sharedRelease (subs : List Arena) : List Arena × List Ev :=
+  let p1 := subs.map Arena.destructAllSt
+  (p1.map (fun x => x.1.release.1), p1.flatMap (·.2) ++ p1.flatMap (fun x => x.1.release.2))
+
 /-! ### the source text the model was transcribed from (compared with `Gen` by `gen_stmts_*`) -/
 namespace Skel
 def fieldInits : List String := [
@@ -596,6 +610,17 @@ def stmts_register_destructor : List String := [
   "auto task=get_destroy_task()",
   "task->destructor=destructor",
   "task->ptr=ptr"
+]
+def stmts_shared_release : List String := [
+  "_resources.for_each([](ExclusiveMonotonicBufferResource*iter,ExclusiveMonotonicBufferResource*end){while(iter!=end){iter++->destruct_all();}})",
+  "_resources.for_each([](ExclusiveMonotonicBufferResource*iter,ExclusiveMonotonicBufferResource*end){while(iter!=end){iter++->release();}})"
+]
+def stmts_swiss_release : List String := [
+  "_arena.store(nullptr,::std::memory_order_relaxed)",
+  "SharedMonotonicBufferResource::release()"
+]
+def stmts_shared_do_allocate : List String := [
+  "return _resources.local().allocate(bytes,alignment)"
 ]
 end Skel
 
